@@ -45,6 +45,8 @@ class LinkPair:
         if c.get("ackpl"):
             self.tx.ack = True
             self.rx.ack = True
+        if c.get("no_dyn_ack") and not tx_lite:
+            self.tx.allow_ask_no_ack = False
         if not c.get("aa0", True) and not tx_lite:
             self.tx.set_auto_ack(False, 0)
         if c.get("rx_p0_static") and not rx_lite:
@@ -191,6 +193,17 @@ class LinkPair:
         for i in range(n):
             rets.append(bool(self.tx.write(bytes([0xD0 + i, 0x11, i]), write_only=True)))
         return dict(k="queue", n=n, rets=rets, air=self._air_since(n0))
+
+    def rxturn(self, n):
+        """the transmitting radio takes a turn as receiver: listens, loads n ACK payloads nobody fetches, goes back to TX"""
+        n0 = len(self.air.log)
+        self.tx.listen = True
+        self.s.advance(300_000)
+        rets = [bool(self.tx.load_ack(bytes([0xAE, i, 0x55]), 1)) for i in range(n)]
+        self.tx.listen = False
+        self.s.advance(300_000)
+        self.settle()
+        return dict(k="rxturn", n=n, rets=rets, air=self._air_since(n0))
 
     def txread(self):
         """the transmitting side reads whatever its RX FIFO holds (ACK payloads left there by send_only calls)"""
